@@ -11,6 +11,7 @@ import NGF.Proofs.Resolver
 import NGF.Proofs.ResolverPlus
 import NGF.Generated.ResolverFacts
 import NGF.Props.C13Handler
+import NGF.Props.C13History
 import NGF.Proofs.PipelineEndpoints
 
 namespace NGF.Resolver
